@@ -232,7 +232,7 @@ class Function:
 
         async def task_unique(name, kill_me=False):
             """Implement task.unique()."""
-            name = f"{ctx.get_global_ctx_name()}.{name}"
+            name = cls.unique_name_key(ctx, name)
             curr_task = asyncio.current_task()
             if name in cls.unique_name2task:
                 task = cls.unique_name2task[name]
@@ -285,7 +285,7 @@ class Function:
 
         def user_task_name2id(name=None):
             """Implement task.name2id()."""
-            prefix = f"{ctx.get_global_ctx_name()}."
+            prefix = cls.unique_name_key(ctx, "")
             if name is None:
                 ret = {}
                 for task_name, task_id in cls.unique_name2task.items():
@@ -311,8 +311,16 @@ class Function:
     @classmethod
     def unique_name_used(cls, ctx, name):
         """Return whether the current unique name is in use."""
-        name = f"{ctx.get_global_ctx_name()}.{name}"
-        return name in cls.unique_name2task
+        return cls.unique_name_key(ctx, name) in cls.unique_name2task
+
+    @classmethod
+    def unique_name_key(cls, ctx, name):
+        """Qualify a unique name with its global context.
+
+        Context names nest (scripts.a / scripts.a.b) and a unique name may contain dots, so the two are
+        joined by a character that no context name contains.
+        """
+        return f"{ctx.get_global_ctx_name()}/{name}"
 
     @classmethod
     def service_has_service(cls, domain, name):
